@@ -457,12 +457,13 @@ class digest(FieldType):
             self.__md5 = self.__md5_bin = None
             return
         try:
-            self.__md5_bin = a2b_hex(val)
-            self.__md5 = val
-            if len(self.__md5_bin) != 16:
-                raise TypeError("Incorrect hash length")
+            md5_bin = a2b_hex(val)
         except binascii.Error as e:
             raise TypeError("Invalid MD5 value {!r}, {}".format(val, e))
+        if len(md5_bin) != 16:
+            raise TypeError("Incorrect hash length")
+        self.__md5_bin = md5_bin
+        self.__md5 = val
 
     @sha1.setter
     def sha1(self, val):
@@ -470,12 +471,13 @@ class digest(FieldType):
             self.__sha1 = self.__sha1_bin = None
             return
         try:
-            self.__sha1_bin = a2b_hex(val)
-            self.__sha1 = val
-            if len(self.__sha1_bin) != 20:
-                raise TypeError("Incorrect hash length")
+            sha1_bin = a2b_hex(val)
         except binascii.Error as e:
             raise TypeError("Invalid SHA-1 value {!r}, {}".format(val, e))
+        if len(sha1_bin) != 20:
+            raise TypeError("Incorrect hash length")
+        self.__sha1_bin = sha1_bin
+        self.__sha1 = val
 
     @sha256.setter
     def sha256(self, val):
@@ -483,12 +485,13 @@ class digest(FieldType):
             self.__sha256 = self.__sha256_bin = None
             return
         try:
-            self.__sha256_bin = a2b_hex(val)
-            self.__sha256 = val
-            if len(self.__sha256_bin) != 32:
-                raise TypeError("Incorrect hash length")
+            sha256_bin = a2b_hex(val)
         except binascii.Error as e:
             raise TypeError("Invalid SHA-256 value {!r}, {}".format(val, e))
+        if len(sha256_bin) != 32:
+            raise TypeError("Incorrect hash length")
+        self.__sha256_bin = sha256_bin
+        self.__sha256 = val
 
     def _pack(self):
         return (
